@@ -916,6 +916,44 @@ def _pure_value(e):
     return True
 
 
+def split_parallel_assignments(tree):
+    """N15  `a, b = x, y`  ->  `a = x ; b = y`   when no later right-hand side reads an earlier target"""
+    for node in ast.walk(tree):
+        for fld in ("body", "orelse", "finalbody"):
+            b = getattr(node, fld, None)
+            if not (isinstance(b, list) and b and isinstance(b[0], ast.stmt)):
+                continue
+            i = 0
+            while i < len(b):
+                st = b[i]
+                i += 1
+                if not (isinstance(st, ast.Assign) and len(st.targets) == 1 and isinstance(st.targets[0], ast.Tuple) and isinstance(st.value, ast.Tuple)
+                        and len(st.targets[0].elts) == len(st.value.elts) and len(st.value.elts) >= 2):
+                    continue
+                tg, vs = st.targets[0].elts, st.value.elts
+                if any(isinstance(x, ast.Starred) for x in tg + vs) or not all(isinstance(t, (ast.Name, ast.Attribute)) for t in tg):
+                    continue
+                texts = [ast.unparse(t) for t in tg]
+                roots = [t.id if isinstance(t, ast.Name) else None for t in tg]
+                safe = True
+                for j in range(1, len(vs)):
+                    later = ast.unparse(vs[j])
+                    names_later = {x.id for x in ast.walk(vs[j]) if isinstance(x, ast.Name)}
+                    for k in range(j):
+                        if (roots[k] is not None and roots[k] in names_later) or (roots[k] is None and texts[k] in later):
+                            safe = False
+                if not safe:
+                    continue
+                new = []
+                for t, v in zip(tg, vs):
+                    a = ast.Assign(targets=[t], value=v)
+                    ast.copy_location(a, st)
+                    new.append(a)
+                b[i - 1:i] = new
+                i = i - 1 + len(new)
+    ast.fix_missing_locations(tree)
+
+
 def forward_pure_flags(tree):
     """N13  `flag = <pure expression over locals>` used exactly once later in the same block (typically as an `if` test): the expression
     is written at the use and the assignment disappears (no statement in between assigns a name the expression reads)"""
@@ -1040,6 +1078,7 @@ def boolify_tests(tree):
 
 
 def apply(tree, helpers=True):
+    split_parallel_assignments(tree)
     unroll_constant_loops(tree)
     operator_idioms(tree)
     if helpers:
